@@ -12,6 +12,7 @@ ERRS = ('typeError', 'keyError', 'attributeError', 'valueError', 'notImplemented
 ERR_OF = {'TypeError': 'typeError', 'KeyError': 'keyError', 'AttributeError': 'attributeError', 'ValueError': 'valueError', 'NotImplementedError': 'notImplementedError'}
 
 
+PTYPE_WITH = {}
 # ------------------------------------------------------------------------------------------- mini interpreter
 class _Raise(Exception):
     def __init__(self, name): self.name = name
@@ -447,6 +448,46 @@ def class_table(repo, ptypes):
         inner = writes_before_super(base_of(c)) if k0 < len(body) else []
         return out + inner
 
+    def ptype_with(c, p, depth=0):
+        """ptype of c(..., ptype=<PType p>) — a caller-supplied plane type handed in as keyword — or None when the constructor
+        call fails with TypeError (no such parameter / the keyword reaches the base constructor twice)"""
+        if depth > 8: raise Refuse(f'{c}: constructor chain too deep')
+        init = method(c, '__init__')
+        if init is None:
+            if c == 'Plane': raise Refuse('Plane.__init__ not found')
+            return ptype_with(base_of(c), p, depth + 1)
+        a = init.args
+        names = [x.arg for x in a.args] + [x.arg for x in a.kwonlyargs]
+        if 'ptype' in names:
+            if c != 'Plane': raise Refuse(f'{c}.__init__: explicit ptype parameter')
+            default_ptype('Plane')          # checks `self._ptype = lentil.ptype(ptype)`
+            return p
+        if a.kwarg is None: return None     # TypeError: unexpected keyword argument 'ptype'
+        kwn = a.kwarg.arg
+        pre, sup = [], None
+        for st in init.body:
+            if isinstance(st, ast.Expr) and isinstance(st.value, ast.Call) and ast.unparse(st.value.func) == 'super().__init__':
+                sup = st.value; break
+            pre.append(st)
+        if sup is None: raise Refuse(f'{c}.__init__: super().__init__ call not found')
+        env = {kwn: {'ptype': PT(p)}}
+        for st in pre:
+            if 'ptype' in ast.unparse(st) or kwn in ast.unparse(st): _exec([st], env, {}, ptypes)
+        passes = any(k.arg is None and ast.unparse(k.value) == kwn for k in sup.keywords)
+        if any(k.arg is None and ast.unparse(k.value) != kwn for k in sup.keywords): raise Refuse(f'{c}.__init__: ** of something else')
+        kw = {k.arg: k.value for k in sup.keywords if k.arg}
+        still = 'ptype' in env[kwn]
+        if 'ptype' in kw:
+            if still and passes: return None                  # TypeError: multiple values for keyword argument 'ptype'
+            v = _ev(kw['ptype'], env, {}, ptypes)
+            if v is None: return default_ptype(base_of(c))
+            if not isinstance(v, PT): raise Refuse(f'{c}.__init__: ptype is {v!r}')
+            return ptype_with(base_of(c), str(v), depth + 1)
+        if still and passes: return ptype_with(base_of(c), p, depth + 1)
+        return default_ptype(base_of(c))
+
+    global PTYPE_WITH
+    PTYPE_WITH = {(c, p): ptype_with(c, p) for c in public for p in ptypes}
     out = []
     for c in public:
         if c not in classes: raise Refuse(f'public class {c} not defined in plane.py')
@@ -657,6 +698,9 @@ def generate(repo):
         f'  | .{c} => [' + ', '.join('"' + w.replace('"', "'") + '"' for w in wr) + ']' for c, _, _, wr in classes))
     A('\n/-- `propagate_fft`: the order of its two refusals (`_has_tilt` -> NotImplementedError, `_propagate_ptype` -> TypeError) as in the source; first argument: the wavefront carries fitted tilt -/')
     A('def codePropagateFft : Bool → WType → Res\n' + '\n'.join(f'  | {str(t).lower()}, .{w} => {_res(fftcells[(t, w)])}' for t in (False, True) for w in wtypes))
+    A('\n/-- ptype of `C(…, ptype=p)` for a caller-supplied plane type `p` (a PType object handed in as keyword); `none`: the constructor call is a TypeError (no such parameter, or the keyword would reach `Plane.__init__` twice) -/')
+    A('def classPtypeWith : PlaneClass → PType → Option PType\n' + '\n'.join(
+        f'  | .{c}, .{p} => ' + ('none' if PTYPE_WITH[(c, p)] is None else f'some .{PTYPE_WITH[(c, p)]}') for c, _, _, _ in classes for p in ptypes))
     pe = prop_effects(repo)
     A('\n/-- `propagate_dft` / `propagate_fft`: effects on the `wavefront` operand (attribute or item writes, in-place mutators, also through a local alias or inside a module-level helper the wavefront is handed to) up to and including the `_propagate_ptype` call that can refuse the operation -/')
     A('def propDftEffectsBeforeTypeCheck : List String := [' + ', '.join('"' + w.replace('"', "'") + '"' for w in pe['propagate_dft']) + ']')
